@@ -378,3 +378,27 @@ pub fn digest(t: &Node) -> String {
     t.hash(&mut h);
     format!("{:016x}", h.finish())
 }
+
+fn describe(t: &Node, depth: usize) -> String {
+    let a = match t.k.as_str() {
+        "name" | "str" | "num" | "lname" | "pname" | "dot" | "f_name" | "function" | "localfunction" | "mcall" | "type" | "opaque" | "goto" | "label" => "",
+        _ => t.a.as_str(),
+    };
+    let head = if a.is_empty() { t.k.clone() } else { format!("{}:{}", t.k, a) };
+    if depth == 0 || t.c.is_empty() {
+        head
+    } else {
+        format!("{}[{}]", head, t.c.iter().map(|c| describe(c, depth - 1)).collect::<Vec<_>>().join(","))
+    }
+}
+
+/// Localise the difference of two meaning trees: descend while exactly one child differs.
+pub fn diff_site(a: &Node, b: &Node) -> String {
+    if a.k == b.k && a.a == b.a && a.c.len() == b.c.len() {
+        let d: Vec<usize> = (0..a.c.len()).filter(|i| a.c[*i] != b.c[*i]).collect();
+        if d.len() == 1 {
+            return diff_site(&a.c[d[0]], &b.c[d[0]]);
+        }
+    }
+    format!("{} => {}", describe(a, 2), describe(b, 2))
+}
